@@ -52,9 +52,32 @@ def module_of(harness):
     """which incrate module defines a harness"""
     for m in harness_modules():
         txt = open(os.path.join(INCRATE, m + '.rs')).read()
-        if re.search(r'\bfn\s+' + re.escape(harness) + r'\b', txt):
+        if re.search(r'\bfn\s+' + re.escape(harness) + r'\b', txt) or re.search(r'!\(\s*' + re.escape(harness) + r'\s*,', txt):
             return m
     return None
+
+
+MODULE_PATHS = {
+    'h_npy_header': 'array::npy::header::verif_kani',
+    'h_spectrum_io': 'spectrum::io::verif_kani',
+    'h_site_reader': 'input::site::reader::verif_kani',
+    'h_geno_builder': 'input::genotype::reader::builder::verif_kani',
+    'h_spectrum': 'spectrum::verif_kani',
+    'h_project': 'spectrum::project::verif_kani',
+}
+_FULL = {}
+
+
+def full_name(short):
+    """fully qualified harness name for --exact (short names can be prefixes of each other)"""
+    if not _FULL:
+        for m in harness_modules():
+            txt = open(os.path.join(INCRATE, m + '.rs')).read()
+            names = set(re.findall(r'\bfn\s+(k_[A-Za-z0-9_]+)\s*\(', txt))
+            names |= set(re.findall(r'[a-z_]+!\(\s*(k_[A-Za-z0-9_]+)\s*,', txt))
+            for n in names:
+                _FULL[n] = MODULE_PATHS.get(m, 'verif_kani::' + m) + '::' + n
+    return _FULL.get(short)
 
 
 def ensure_playback_files(clear=False):
@@ -81,8 +104,9 @@ def _run_chunk(names, repo='/repo', jobs=8, harness_timeout=600, total_timeout=7
            '-j', str(jobs), '--output-format', 'terse']
     if unwind:
         cmd += ['--default-unwind', str(unwind)]
+    cmd.append('--exact')
     for n in names:
-        cmd += ['--harness', n]
+        cmd += ['--harness', full_name(n) or n]
     cmd += list(extra)
     res['cmd'] = ' '.join(cmd)
     try:
@@ -193,7 +217,7 @@ def counterexample(harness, repo='/repo', harness_timeout=900):
     cmd = ['cargo', 'kani', '-p', 'sfs-core', '--target-dir', TARGET,
            '-Z', 'unstable-options', '-Z', 'function-contracts', '-Z', 'stubbing', '-Z', 'concrete-playback',
            '--concrete-playback=print', '--harness-timeout', f'{harness_timeout}s',
-           '--output-format', 'terse', '--harness', harness]
+           '--output-format', 'terse', '--exact', '--harness', full_name(harness) or harness]
     try:
         p = subprocess.run(cmd, cwd=repo, env=env(), capture_output=True, text=True, timeout=harness_timeout + 600, preexec_fn=_limit_memory)
     except subprocess.TimeoutExpired:
